@@ -520,6 +520,9 @@ def get_override_info(cls:model.Class, member_name:str, page_url:Optional[str]=N
         if member_name not in b.contents:
             continue
         overridden = b.contents[member_name]
+        if not overridden.isVisible:
+            # Hidden objects are not mentioned.
+            continue
         yield tags.div(class_="interfaceinfo")(
             'overrides ', tags.code(epydoc2stan.taglink(overridden, page_url)))
         break
